@@ -151,6 +151,10 @@ def run_kani(module, tier, profile="dev", jobs=None, timeout_s=None, extra_filte
         proc = subprocess.Popen(cmd, cwd=crate, env=env, stdout=lf, stderr=subprocess.STDOUT)
         killed = _watch(proc, int(os.environ.get("VERIF_CBMC_RSS_MB", "14000")))
     p = proc
+    try:
+        prune_target(env)
+    except Exception:
+        pass
     wall = time.time() - t0
     info = {"cmd": " ".join(cmd), "rc": p.returncode, "wall_s": wall, "log": log_path, "cbmc_killed_over_memory": killed,
             "profile": profile, "rustflags": kani_env(profile)["RUSTFLAGS"]}
@@ -196,6 +200,16 @@ def run_kani(module, tier, profile="dev", jobs=None, timeout_s=None, extra_filte
     for h in hs.values():
         classify(h)
     return sorted(hs.values(), key=lambda h: h.name), info
+
+
+def prune_target(env, keep=2):
+    """Kani keeps one output directory per build hash (hundreds of MB each); keep only the newest few."""
+    import glob, shutil
+    base = os.path.join(env["CARGO_TARGET_DIR"], "kani", "*", "debug", "build", "*")
+    for pkg in glob.glob(base):
+        dirs = sorted((d for d in glob.glob(os.path.join(pkg, "*")) if os.path.isdir(d)), key=os.path.getmtime, reverse=True)
+        for d in dirs[keep:]:
+            shutil.rmtree(d, ignore_errors=True)
 
 
 def _watch(proc, limit_mb):
